@@ -345,6 +345,8 @@ def get_item(I, v, idx):
         if not I.spec:
             if not I.path.branch(z3.Select(v.has, kz), note="key-present"):
                 I.raise_py(KeyError, idx)
+        if v.vty.kind == "const":
+            return v.vty.value
         return wrap(v.vty, z3.Select(v.val, kz))
     if isinstance(v, (SBytes, SSeq, bytes, bytearray, str, tuple, list, SRange)):
         if not isinstance(idx, (int, SInt)):
@@ -389,7 +391,8 @@ def set_item(I, v, idx, x):
         if v.size is not None:
             v.size = simp(z3.If(z3.Select(v.has, kz), v.size, v.size + 1))
         v.has = z3.Store(v.has, kz, z3.BoolVal(True))
-        v.val = z3.Store(v.val, kz, to_z3(x))
+        if not (x is None and v.vty.kind == "const"):
+            v.val = z3.Store(v.val, kz, to_z3(x))
         drop_key_order(v)
         return
     if isinstance(v, SSeq) and v.kind == "list":
